@@ -171,19 +171,22 @@ consume_node_harness!(
 #[kani::stub(std::hash::RandomState::new, fixed_random_state)]
 #[kani::unwind(82)]
 fn c13_ratchet_new() {
-    let p = GhostProvider::new();
     let secret = any_exact::<NH>();
-    let handshake: bool = kani::any();
-    let kt = if handshake { KeyType::Handshake } else { KeyType::Application };
-    let r = SecretKeyRatchet::new(&p, &secret, kt);
-    assert!(r.is_ok());
-    let r = r.ok().unwrap();
-    let label: &[u8] = if handshake { b"handshake" } else { b"application" };
-    assert!(p.calls() == 1);
-    assert!(p.is(0, Op::Expand, &secret, &rfc_kdf_label(NH as u16, label, &[]), NH));
-    assert!(is_out(&r.secret, 1, NH));
-    assert!(r.generation == 0);
-    assert!(r.history.is_empty());
+    // (case split: the two labels have different lengths)
+    for_each_bool(|handshake| {
+        let p = GhostProvider::new();
+        let kt = if handshake { KeyType::Handshake } else { KeyType::Application };
+        let r = SecretKeyRatchet::new(&p, &secret, kt);
+        assert!(r.is_ok());
+        let r = r.ok().unwrap();
+        let label: &[u8] = if handshake { b"handshake" } else { b"application" };
+        assert!(p.calls() == 1);
+        assert!(p.is(0, Op::Expand, &secret, &rfc_kdf_label(NH as u16, label, &[]), NH));
+        assert!(is_out(&r.secret, 1, NH));
+        assert!(r.generation == 0);
+        assert!(r.history.is_empty());
+        core::mem::forget(r);
+    });
 }
 
 #[kani::proof]
@@ -191,12 +194,14 @@ fn c13_ratchet_new() {
 #[kani::stub(std::hash::RandomState::new, fixed_random_state)]
 #[kani::unwind(82)]
 fn c13_ratchet_new_provider_error() {
-    let p = GhostProvider::failing_at(0);
     let secret = any_exact::<NH>();
-    let kt = if kani::any() { KeyType::Handshake } else { KeyType::Application };
-    let r = SecretKeyRatchet::new(&p, &secret, kt);
-    assert!(is_provider_error(&r));
-    core::mem::forget(r);
+    for_each_bool(|handshake| {
+        let p = GhostProvider::failing_at(0);
+        let kt = if handshake { KeyType::Handshake } else { KeyType::Application };
+        let r = SecretKeyRatchet::new(&p, &secret, kt);
+        assert!(is_provider_error(&r));
+        core::mem::forget(r);
+    });
 }
 
 fn ratchet(secret: &[u8], generation: u32) -> SecretKeyRatchet {
